@@ -1,5 +1,6 @@
 import BindgenModel.Driver.C03
 import BindgenModel.Driver.C09
+import BindgenModel.Driver.C10
 /-! `bgmodel`: one request per input line, one answer per output line. -/
 open BindgenModel
 
@@ -7,6 +8,7 @@ def dispatch (line : String) : String :=
   match (line.trimAscii.toString.splitOn " ").filter (· ≠ "") with
   | "bf" :: rest => Driver.C03.handle rest
   | "reach" :: rest => Driver.C09.handle rest
+  | "blk" :: rest => Driver.C10.handle rest
   | _ => "bad-op"
 
 partial def loop (h : IO.FS.Stream) (out : IO.FS.Stream) : IO Unit := do
